@@ -7,6 +7,7 @@ package main
 
 import (
 	"bufio"
+	"hash/fnv"
 	"fmt"
 	"os"
 	"strconv"
@@ -121,6 +122,9 @@ func main() {
 		for sc.Scan() {
 			line := sc.Text()
 			toks := strings.Fields(line)
+			h := fnv.New32a()
+			h.Write([]byte(line))
+			collectRerun = h.Sum32()%4 == 0
 			out := safe(func() string { return p.drive(toks) })
 			w.WriteString(out)
 			w.WriteByte('\n')
